@@ -101,3 +101,36 @@ def angle_zx_z_getx(ctx):
     want_x2 = (tf.expand_dims(tf.cos(be) * tf.cos(al), -1) * ex + tf.expand_dims(tf.cos(be) * tf.sin(al), -1) * ey
                - tf.expand_dims(tf.sin(be), -1) * ez)
     ctx.eq("x2", x2, want_x2, clause="x2 == R_z(alpha) R_y(beta) e_x  (the rotated x axis)")
+
+
+@group(["C01", "C11"], "angle.EulerAngle.angle_zx_zx", ["angle:EulerAngle.angle_zx_zx", "angle:Vector3.angle_from", "angle:Vector3.cross_unit"], cost=20)
+def angle_zx_zx(ctx):
+    """(alpha, beta, gamma) = angle_zx_zx(z1, x1, z2, x2) are the z-y-z Euler angles of the rotation taking frame 1 to frame 2:
+    R_z(alpha) R_y(beta) R_z(gamma) (written in frame 1) maps e_z -> e_z' and e_x -> e_x'.  With x_int = R_z(alpha) R_y(beta) e_x and
+    y_int = e_z' x x_int (the frame after the first two rotations):  e_x' = cos(gamma) x_int + sin(gamma) y_int.
+    (Added after seeded change C01-angle_zx_zx_gamma_sign: the third angle had no contract; it only matters for r_boost: False.)"""
+    tf = ctx.tf
+    ang = ctx.mod("angle")
+    z1 = ctx.real("z1", (1, 3), s_v3)
+    x1 = ctx.real("x1", (1, 3), s_v3)
+    z2 = ctx.real("z2", (1, 3), s_v3)
+    x2 = ctx.real("x2", (1, 3), s_v3)
+    ex, ey, ez, dot, cross, unit = _frame(tf, z1, x1)
+    ex2, ey2, ez2, _, _, _ = _frame(tf, z2, x2)
+    c1, c2, c3 = cross(z1, x1), cross(z1, z2), cross(z2, x2)
+    ctx.require(dot(c1, c1) >= 1e-6, "z1, x1 not parallel")
+    ctx.require(dot(c2, c2) >= 1e-6, "z1, z2 not parallel (at beta = 0, pi only alpha + gamma is defined)")
+    ctx.require(dot(c3, c3) >= 1e-6, "z2, x2 not parallel")
+    ctx.require(dot(z1, z1) >= 1e-6)
+    ctx.require(dot(z2, z2) >= 1e-6)
+    euler = ang.EulerAngle.angle_zx_zx(z1, x1, z2, x2)
+    al, be, ga = euler["alpha"], euler["beta"], euler["gamma"]
+    ctx.eq("cos_beta", tf.cos(be), dot(ez2, ez), clause="cos(beta) == e_z'.e_z")
+    ctx.eq("sinb_cosa", tf.sin(be) * tf.cos(al), dot(ez2, ex), clause="sin(beta) cos(alpha) == e_z'.e_x")
+    ctx.eq("sinb_sina", tf.sin(be) * tf.sin(al), dot(ez2, ey), clause="sin(beta) sin(alpha) == e_z'.e_y")
+    ctx.eq("sin_beta", tf.sin(be), tf.sqrt(dot(c2, c2)) / (tf.sqrt(dot(z1, z1)) * tf.sqrt(dot(z2, z2))), clause="sin(beta) == |z1 x z2| / (|z1| |z2|) (>= 0)")
+    # the frame after R_z(alpha) R_y(beta): its y axis is the node line e_z x e_z' / |.|, its x axis is y_int x e_z'
+    y_int = unit(c2)
+    x_int = cross(y_int, ez2)
+    ctx.eq("cos_gamma", tf.cos(ga), dot(ex2, x_int), clause="cos(gamma) == e_x' . x_int  (x_int = R_z(alpha) R_y(beta) e_x)")
+    ctx.eq("sin_gamma", tf.sin(ga), dot(ex2, y_int), clause="sin(gamma) == e_x' . y_int  (y_int = node line e_z x e_z'): the SIGN of gamma")
